@@ -442,6 +442,24 @@ def shrink(case):
         yield dict(case, parser=P)
 
 
+# ------------------------------------------------------------------------------------------------
+# bounded failing-input search after a broken proof / tie (framework step 5): ONE fresh quick-sized batch
+# ------------------------------------------------------------------------------------------------
+def search(rng, tier, broken):
+    from tie.framework import judge_cases, load_known_findings
+    import sys
+    mod = sys.modules[__name__]
+    cases = generate(rng, "quick")
+    obs = observe(cases)
+    bad_model, bad_in, bad_out = judge_cases(mod, cases, obs, tag="x")
+    known = load_known_findings(PROP)
+    bad = sorted(set(bad_in) | {i for i, k in bad_out if FINDING_CLASSES.get(k) not in known})
+    if not bad:
+        return None
+    i = bad[0]
+    return {"case": cases[i], "observed": obs[i], "explain": describe(cases[i], obs[i])}
+
+
 META = {
     "level_text": "Rocq theorems (coq/Properties/C17.v) over a Gallina model of the parse pipeline, for subcommand trees of ANY depth "
                   "and width and every input of the modelled space (structured argv with options, --cfg values and subcommand tokens at "
@@ -458,7 +476,9 @@ META = {
                   "fixes/C17-falsy-subcommand-name-keeps-all-sections.patch the full statement holds without guard. The remaining "
                   "clause (first declared subcommand with settings), the rule at nested levels and the VALUES inside the chosen "
                   "sections (last given on this level, else environment, else default: Spec.spec_ok with select / values_ok evaluated "
-                  "on the inputs) are judged per case inside Coq against the real parsers, not proved. The model (get_subcommands, "
+                  "on the inputs), and ACCEPTANCE (Spec.must_succeed: when every source is clean - only declared options, names and "
+                  "sections - and along the selected path every level has a determinable choice, from whatever mix of sources, or is "
+                  "optional, a failing parse is a spec failure) are judged per case inside Coq against the real parsers, not proved. The model (get_subcommands, "
                   "handle_subcommands, __call__, _load_env_vars, apply_config, the second get_subcommand pass in apply_parsing_links, "
                   "validate) is tied to real parsers built from generated trees of 1-3 subcommand levels with 1-4 subcommands each.",
     "level_note": "Three recorded findings (known_findings/C17.txt), each with a fix patch in fixes/ and a model variant flag; the "
@@ -467,8 +487,9 @@ META = {
                   "subcommand drops given settings (judge class 2, C17_cfg_names_other_refuted; fixed in /repo efb952a); "
                   "parse_env(mapping) lets the sub-parsers read os.environ (judge class 3 = osenv_clean, "
                   "C17_env_mapping_decoy_refuted; open, fixes/C17-env-mapping-ignored-by-handle-subcommands.patch). Not proved: Spec.select below the top "
-                  "level / for the settings-given clause, and the values - exercised by the correspondence only. Failing parses are "
-                  "only compared as 'failed' (the error kind is not tied). Not modelled: default_config_files, aliases, explicit null, "
+                  "level / for the settings-given clause, the values and must_succeed - exercised by the correspondence only. Failing "
+                  "parses are only compared as 'failed' (the error kind is not tied); a failure is a spec failure only under must_succeed "
+                  "(a sufficient condition: unclean inputs demand nothing). Not modelled: default_config_files, aliases, explicit null, "
                   "PREFIX_CFG variables, non-int options. Trusted: Coq kernel/VM, the model's faithfulness outside the generated cases, "
                   "the harness rendering of argv/JSON/environment, argparse tokenisation. No axioms.",
     "technique": "Rocq proof by induction on fuel over a Gallina model of the parse pipeline, parameterised by the tree variant "
